@@ -756,15 +756,41 @@ def sub_is_guarded(body, bb, rv):
     return False
 
 
+CLIENT_CLASSIFY = r"^serde_json::(de::)?(from_slice|from_str)$"
+
+
+def client_message_handlers(F):
+    """the functions of the async client (outside helpers/manager) that classify an incoming message: handle_recv_message
+    and whatever free functions of async_client it was split into. Ordered: the one with the element loop first."""
+    out = []
+    for b in F.real_bodies():
+        if b.crate != CORE or is_test_body(b) or b.kind not in ("Fn", "AssocFn"):
+            continue
+        if not re.match(r"^jsonrpsee_core::client::async_client::(?!helpers::|manager::|utils::|rpc_service::)[\w:]+$", b.path):
+            continue
+        cls = [c for c in b.calls_to(CLIENT_CLASSIFY) if len(c.ga) >= 2 and c.ga[-1].startswith("jsonrpsee_types::")]
+        if cls:
+            out.append(b)
+    if not out:
+        raise AnchorLost("the async client's message classification (serde_json::from_slice::<jsonrpsee_types::..> in async_client)")
+    out.sort(key=lambda b: (0 if any(c.callee == "std::iter::Iterator::next" for c in b.calls) else 1, b.path))
+    return out
+
+
 def array_elements_all_processed(F, R, rule):
     """the client's array arm looks at every element: inside the loop over the elements of a `[..]` message the only way
     out of the function is an error; a successful return from inside the loop would skip the remaining elements (their
     responses / close notifications are never routed) and the batch completion that follows the loop."""
-    b = F.one(r"^jsonrpsee_core::client::async_client::handle_backend_messages::handle_recv_message$")
-    R.fn(b)
-    loops = [c for c in b.calls if c.callee == "std::iter::Iterator::next" and "RawValue" in ((c.self_ty or "") + " ".join(c.ga or []))]
-    if not loops:
-        loops = [c for c in b.calls if c.callee == "std::iter::Iterator::next" and c.dest and "RawValue" in b.locals[c.dest["l"]]["ty"]]
+    loops = []
+    b = None
+    for x in client_message_handlers(F):
+        R.fn(x)
+        lx = [c for c in x.calls if c.callee == "std::iter::Iterator::next" and "RawValue" in ((c.self_ty or "") + " ".join(c.ga or []))]
+        if not lx:
+            lx = [c for c in x.calls if c.callee == "std::iter::Iterator::next" and c.dest and "RawValue" in x.locals[c.dest["l"]]["ty"]]
+        if lx:
+            b = x
+            loops += lx
     if len(loops) != 1:
         R.anchor_lost(rule, "the loop over the elements of an array message in handle_recv_message (found %d)" % len(loops))
         return
